@@ -59,6 +59,41 @@ def ff_bits(b):
     return f"{b:016x}"
 
 
+def f32_round(x):
+    """the f32 nearest to x, as a Python float (exactly representable in f32)"""
+    try:
+        return struct.unpack("<f", struct.pack("<f", x))[0]
+    except OverflowError:
+        import math
+        return math.copysign(math.inf, x)
+
+
+def f32_bits(x):
+    return struct.unpack("<I", struct.pack("<f", x))[0]
+
+
+def bits_f32(b):
+    return struct.unpack("<f", struct.pack("<I", b))[0]
+
+
+def ff32(x):
+    """protocol text of an f32 (8 hex digits of its bits); x must already be an f32 value"""
+    return f"{f32_bits(float(x)):08x}"
+
+
+def next_up32(x):
+    b = f32_bits(x)
+    if x != x or x == float("inf"):
+        return x
+    if x == 0.0:
+        return bits_f32(1)
+    return bits_f32(b + 1) if x > 0 else bits_f32(b - 1)
+
+
+def next_down32(x):
+    return -next_up32(-x)
+
+
 def next_up(x):
     import math
     return math.nextafter(x, math.inf)
@@ -168,7 +203,7 @@ class Result:
         return [Fraction(v) for v in self.vals]
 
     def floats(self):
-        return [bits_f64(int(v, 16)) for v in self.vals]
+        return [float("nan") if v == "nan" else (bits_f32(int(v, 16)) if len(v) == 8 else bits_f64(int(v, 16))) for v in self.vals]
 
     def bits(self):
         return [int(v, 16) for v in self.vals]
@@ -407,7 +442,10 @@ def fcanon(vals):
     for v in vals:
         if v != "nan":
             b = int(v, 16)
-            if (b >> 52) & 0x7FF == 0x7FF and b & ((1 << 52) - 1):
+            if len(v) == 8:
+                if (b >> 23) & 0xFF == 0xFF and b & ((1 << 23) - 1):
+                    v = "nan"
+            elif (b >> 52) & 0x7FF == 0x7FF and b & ((1 << 52) - 1):
                 v = "nan"
         out.append(v)
     return out
@@ -417,7 +455,7 @@ def fclass(vals):
     """coarse class of f64 result tokens: nan / +inf / -inf / finite"""
     out = []
     for v in fcanon(vals):
-        out.append(v if v in ("nan", "7ff0000000000000", "fff0000000000000") else "fin")
+        out.append(v if v in ("nan", "7ff0000000000000", "fff0000000000000", "7f800000", "ff800000") else "fin")
     return out
 
 
@@ -430,7 +468,7 @@ def same(line, model, impl):
     order as the crate) must give the same outcome and shape; Linear/Bilinear values must agree bit for bit (all NaNs equal);
     CubicSpline values must agree in class (NaN / +-inf / finite) — the crate squares with `powf(x, 2.0)`, the model with `x*x`, which
     a libm may round differently in the last place, so bitwise agreement there is recorded as a statistic, not required."""
-    if line.split(" ", 1)[0] == "F":
+    if line.split(" ", 1)[0] in ("F", "G"):      # f64 / f32
         rm, ri = Result(model), Result(impl)
         if rm.outcome() != ri.outcome():
             return False
